@@ -10,7 +10,7 @@ META = {
                    "expected dictionaries (coefficients, repeated species summed, inactive groups, arrow per class, allowed-key rejection, "
                    "parameter/keyword parts, print-parse round trip, copy equality)",
     "bounds": {"quick": "<= 2 symbolic coefficients (1..1000) and <= 2 symbolic key indices per harness; symbolic key string of length <= 3 over "
-                        "the alphabet 'A(2)+-['; per-harness CrossHair budget 240 s",
+                        "the alphabet 'A(2)+-['; <= 4 terms per side for repeated species, 12+12 terms and 48-character keys for the print/parse round trip; per-harness CrossHair budget 240 s",
                "thorough": "budget 1200 s per harness"},
     "assumptions": [
         "globals_=False / {} (no eval of parameter expressions beyond integers and quoted names); float parameters 'to printed precision' "
